@@ -32,6 +32,9 @@ PROPS = {
     'C11': dict(lean_quick=['Props.C11Fin'], prefixes=['p16e1::math', 'p8e0::math']),
     'C18': dict(lean_quick=['Props.C18'], prefixes=['polynom']),
     'C19': dict(lean_quick=['Props.C19'], prefixes=['p8e0::{impl#15}', 'p16e1::{impl#15}', 'p32e2::{impl#15}'], assumptions=['rand 0.8: gen_range(lo..hi) returns a value in [lo, hi)']),
+    'C16': dict(lean_quick=['Props.C01Fin', 'Props.C03Fin', 'Props.C06Fin', 'Props.C07Fin', 'Props.C08Fin', 'Props.C09Fin', 'Props.C10Fin', 'Props.C11Fin', 'Props.C17Fin', 'Props.C05ShardQuick', 'Props.C04Hist', 'Props.C19'],
+                totality=True, all_theorems=True, prefixes=['']),
+    'C15': dict(lean_quick=['Props.C15'], prefixes=['p32e2::math::sleef', 'polynom', 'quire32'], oracle15=True),
     'C04': dict(lean_quick=['Props.C04', 'Props.C04Hist'], prefixes=['quire8', 'quire16', 'quire32']),
     'C12': dict(lean_quick=['Props.C12'], prefixes=['quire8', 'quire16', 'quire32']),
 }
@@ -66,6 +69,12 @@ def streams(pid, tier, rng, scale=1):
         if pid == 'C16': cnt = cnt // 8
         if pid == 'C17': cnt = cnt // 4
         for vals in cases_for(ty, n, args, cnt, rng, TYPES, op=op):
+            if op == 'clamp':
+                sg = lambda v: v - (1 << n) if v >> (n - 1) else v
+                if sg(vals[1]) > sg(vals[2]): continue      # documented precondition (asserted): min <= max
+            if ty == 'p32' and op in ('sin', 'cos', 'tan'):
+                a_ = vals[0] if vals[0] < (1 << 31) else (1 << 32) - vals[0]
+                if a_ >= 0x7d400000 and vals[0] != (1 << 31): continue   # |x| >= 393216: explicit todo!() branch, outside C15/C16
             lines.append(ty + ' ' + op + ' ' + ' '.join('%x' % v for v in vals))
     lines += extra_streams(pid, tier, rng, scale)
     return lines
@@ -166,6 +175,44 @@ def extra_streams(pid, tier, rng, scale):
             for u in range(1 << 18): lines.append('p16 sub_one %x' % u)
         else:
             for _ in range(per): lines.append('p16 sub_one %x' % rng.randrange(1 << 18))
+    if pid == 'C15':
+        import math
+        sys_path = os.path.join(core.VERIF, 'tools')
+        import sys
+        if sys_path not in sys.path: sys.path.insert(0, sys_path)
+        from pyspec import rnd, to_rat
+        from fractions import Fraction as Fr
+        from .gen_inputs import interesting_posits, anyp, related_pair
+        per = 4000 * scale * big
+        M32 = (1 << 32) - 1
+        def around(v, k=3):
+            p = rnd(32, 2, Fr(v)); return [(p + d) & M32 for d in range(-k, k + 1)]
+        special = []
+        for kk in list(range(1, 64)) + [100, 1000, 12345, 100000, 250000]:          # multiples of pi/2 (argument reduction), both signs
+            for v in around(kk * math.pi / 2): special += [v, (-v) & M32]
+        for e in range(-30, 31):                                                   # powers of two and neighbours
+            for v in around(2.0 ** e, 1): special += [v, (-v) & M32]
+        for v in (0.5, 1.0, 1.5, 2.0, 0.25, 104.0, -104.0, 88.0, 127.99, -149.9, 1e-9, 3e5, 393215.0):
+            special += around(v, 2)
+        un = ['sin', 'cos', 'tan', 'asin', 'acos', 'atan', 'ln', 'log2', 'exp', 'exp2', 'sinh', 'cosh', 'cbrt']
+        for f in un:
+            for a in special: lines.append('p32 %s %x' % (f, a))
+            for a in interesting_posits(32, rng, per): lines.append('p32 %s %x' % (f, a))
+            for _ in range(per): lines.append('p32 %s %x' % (f, rng.getrandbits(32)))
+            lo, hi = {'asin': (-0x40000000, 0x40000000), 'acos': (-0x40000000, 0x40000000), 'exp': (-0x6a800000, 0x6a800000), 'exp2': (-0x6cb00000, 0x6c000000),
+                      'sinh': (-0x69800000, 0x69800000), 'cosh': (-0x69800000, 0x69800000), 'sin': (-0x7d400000 + 1, 0x7d400000 - 1), 'cos': (-0x7d400000 + 1, 0x7d400000 - 1),
+                      'tan': (-0x7d400000 + 1, 0x7d400000 - 1), 'ln': (1, 0x7fffffff), 'log2': (1, 0x7fffffff)}.get(f, (-0x7fffffff, 0x7fffffff))
+            for _ in range(per): lines.append('p32 %s %x' % (f, rng.randint(lo, hi) & M32))      # what the crate's own ULP tests sample
+        for f in ('atan2', 'hypot'):
+            for _ in range(per):
+                a, b = related_pair(32, rng); lines.append('p32 %s %x %x' % (f, a, b))
+            for _ in range(per): lines.append('p32 %s %x %x' % (f, rng.getrandbits(32), rng.getrandbits(32)))
+            for a in special[:60]:
+                for b in (0x40000000, 0xc0000000, 1, 0x7fffffff, a): lines.append('p32 %s %x %x' % (f, a, b))
+        for _ in range(per * 2):
+            lines.append('p32 powf %x %x' % (rng.randint(0x38000000, 0x52000000), rng.randint(0x38000000, 0x52000000)))
+        for a in (0x40000000, 0x48000000, 0x38000000, 0x52000000, 0x44000000):
+            for b in (0x40000000, 0x48000000, 0x38000000, 0x52000000, 0x44000000, 0x3c000000): lines.append('p32 powf %x %x' % (a, b))
     if pid == 'C12':
         # posit -> quire -> posit round trip and the state operations on single-posit states
         for qt, n in QT.items():
